@@ -398,6 +398,7 @@ def main(argv):
             "return the block start, not the value address). Not decided: numeric pointer values."
             ' Added later: R-THICK as a premise (what `from_raw(into_raw(x))` shows is read through the same length-reading helper).'
             " R-REFCNT-PAIR on every RefCnt impl; the union's Clone/Drop arms."
+            ' Round thirteen: R-GUARD and R-WRITEBACK as premises (the address a handle reports is that of the block it owns).'
         ),
         rule_text="instances = accessor pairings, NOREF sites, repr facts, width witnesses",
         trusted_base=["rustc MIR def-use and trait resolution", "offset lemma validated by C05", "rustc layout computation for the width witnesses"],
